@@ -241,3 +241,49 @@ func enlarge(sz int, ids []int, attrs []slog.Attr, msg string) ([]slog.Attr, str
 	out[0] = slog.String(tag(ids[0]), bigValue(sz, tag(ids[0])+" "))
 	return out, msg
 }
+
+// ---------------------------------------------------------------- live values
+
+// A live value is a slog.LogValuer whose result is a function of a cell the
+// environment changes between steps (HybridLog: IsLive, cell, Tick).  What a
+// line shows is what the value evaluates to when the record is handled.
+type liveValuer struct {
+	get  func() int64
+	tag  string
+	kind int // 1: a string holding the state; 2: a group holding the state and another live valuer
+}
+
+func (v liveValuer) LogValue() slog.Value {
+	if v.kind == 2 {
+		return slog.GroupValue(slog.Int64("state", v.get()), slog.Any("inner", liveValuer{get: v.get, tag: v.tag, kind: 1}))
+	}
+	return slog.StringValue(v.tag + ":state=" + strconv.FormatInt(v.get(), 10))
+}
+
+// isLiveID mirrors IsLive of HybridLog.tla: the first attribute of every
+// second batch / record.
+func isLiveID(id int) bool {
+	if id < 0 {
+		id = -id
+	}
+	return id > 1 && id%10 == 1 && (id/10)%2 == 0
+}
+
+// liveCtx says how live ids are concretised (kind 0: not at all).
+type liveCtx struct {
+	kind int
+	get  func() int64
+}
+
+// concretiseL is concretise with the live ids turned into live valuers.
+func concretiseL(ids []int, salt uint64, table []attrGen, lc liveCtx) []slog.Attr {
+	out := concretise(ids, salt, table)
+	if lc.kind > 0 {
+		for i, id := range ids {
+			if isLiveID(id) {
+				out[i] = slog.Any(tag(id), liveValuer{get: lc.get, tag: tag(id), kind: lc.kind})
+			}
+		}
+	}
+	return out
+}
